@@ -268,12 +268,7 @@ func (e *Exec) strEq(a, b Str) *Term {
 	if a.IsConcrete() && b.IsConcrete() {
 		return e.tt.Bool(a.s == b.s)
 	}
-	ab, bb := e.strBytes(a), e.strBytes(b)
-	cs := make([]*Term, len(ab))
-	for i := range ab {
-		cs[i] = e.tt.Eq(ab[i], bb[i])
-	}
-	return e.tt.And(cs...)
+	return e.bytesEq(e.strBytes(a), e.strBytes(b))
 }
 
 // strLess builds the lexicographic a < b predicate.
